@@ -494,6 +494,61 @@ def r12_msm_args(s, file, log):
     return s
 
 
+def r12b_collect_args(s, file, log):
+    """X::create(a, &b, P.collect(), Q.collect(), c)  ->  { let vx_cK = P.collect();<nl>let vx_cK' = Q.collect();<nl>X::create(a, &b, vx_cK, vx_cK', c) }
+    only when every argument to the left of a hoisted one is a plain (borrowed) place or a `.into_affine()` of one, so the
+    evaluation order of anything with an effect is unchanged.  Gives the collected vectors names for proof steps."""
+    n = 0
+    pure = re.compile(r'^&?\s*(mut\s+)?[A-Za-z_][\w.]*(\.into_affine\(\))?$')
+    while True:
+        m = rp.mask(s)
+        hit = None
+        for mm in re.finditer(r'\bInnerProductProof::create\(', m):
+            o = mm.end() - 1
+            c = rp.match_close(m, o)
+            inner = m[o + 1:c]
+            cuts = []
+            d = 0
+            for i, ch in enumerate(inner):
+                if ch in '([{':
+                    d += 1
+                elif ch in ')]}':
+                    d -= 1
+                elif ch == ',' and d == 0:
+                    cuts.append(i)
+            bounds = [-1] + cuts + [len(inner)]
+            args = [s[o + 1 + bounds[i] + 1:o + 1 + bounds[i + 1]] for i in range(len(bounds) - 1)]
+            if args and not args[-1].strip():
+                args = args[:-1]
+            idx = [i for i, a in enumerate(args) if re.search(r'\.collect(::<[^;]*>)?\(\)$', a.strip()) and not a.strip().startswith('vx_c')]
+            if not idx:
+                continue
+            ok = all(pure.match(args[j].strip()) or j in idx for j in range(max(idx)))
+            if not ok:
+                continue
+            hit = (mm.start(), o, c, args, idx)
+            break
+        if not hit:
+            break
+        st, o, c, args, idx = hit
+        lets = []
+        out = []
+        for i, a in enumerate(args):
+            if i in idx:
+                n += 1
+                nm = 'vx_c%d' % n
+                lets.append('let %s: Vec<_> = %s;' % (nm, a.strip()))
+                out.append(nm)
+            else:
+                out.append(a.strip())
+        new = '{ ' + SYN_NL.join(lets) + SYN_NL + 'InnerProductProof::create(' + ', '.join(out) + ') }'
+        old = s[st:c + 1]
+        log.add('R12b:collect-args', file, rp.line_of(s.replace(SYN_NL, ''), st), '')
+        d = old.count('\n') - new.count('\n')
+        s = s[:st] + new + ('\n' * d if d > 0 else '') + s[c + 1:]
+    return s
+
+
 def finish_linemap(s):
     """returns (text with synthetic newlines made real, linemap: source line of every output line)"""
     out_lines = []
@@ -534,6 +589,7 @@ def extract_file(repo_src, file, log):
     s = r13_continue(s, file, log)
     s = r14_array_patterns(s, file, log)
     s = r12_msm_args(s, file, log)
+    s = r12b_collect_args(s, file, log)
     return finish_linemap(s)
 
 
